@@ -383,6 +383,26 @@ def comp_loop_pairs():
                             f"{lif}r[{k}] = {f}; end; r end]")
 
 
+    # two sources with a selector each (maps whose values ascend with their
+    # keys, so that key order and value order coincide)
+    m1 = "<<<1 => 10, 2 => 20>>>"
+    m2 = "<<<'a' => 'x', 'b' => 'y'>>>"
+    for sel1 in ("keys ", "values ", "entries "):
+        for sel2 in ("keys ", "values ", "entries "):
+            for (o, c, ini, add) in (("[", "]", "[]", "append(r, [a, b])"),
+                                     ("<<", ">>", "<<>>",
+                                      "append(r, [a, b])")):
+                yield "product-selectors", (
+                    f"def m = {m1}; def n = {m2}; "
+                    f"[{o}[a, b] for a in {sel1}m for b in {sel2}n{c}, "
+                    f"do def r = {ini}; for a in {sel1}m do "
+                    f"for b in {sel2}n do {add}; end; end; r end]")
+                yield "parallel-selectors", (
+                    f"def m = {m1}; def n = {m2}; "
+                    f"[{o}[a, b] for a in {sel1}m also for b in {sel2}n{c}, "
+                    f"do def r = {ini}; def bs = [b for b in {sel2}n]; "
+                    f"def i = 0; for a in {sel1}m do append(r, [a, bs[i]]); "
+                    f"i += 1; end; r end]")
     # effects and failures: the filter guards the value expression exactly as
     # the `if` of the explicit loop does (evaluation order cond -> value)
     pre = ("def lg = []; def val(x) do append(lg, 'v' + string(x)); x end; "
